@@ -55,6 +55,10 @@ class C09(EngineProp):
             out.append({'mode': 'collector-pair', 'role': 'both', 'profile': 'collector-pair', 'kind': rng.choice(['gen', 'agen']), 'L': L,
                         'C': rng.choice([L, 2 * L, 2 * L, 3 * L, L + 1, 1, 4]), 'count': rng.choice([12, 20]), 'channel': rng.random() < 0.7,
                         'open_upstream': rng.random() < 0.7, 'seed': rng.getrandbits(30)})
+        # a request-response served through the routing layer (RoutingRequestHandler + RequestRouter), its handler's future still pending
+        for _ in range(40 if tier == 'quick' else 600):
+            out.append({'mode': 'routed-cancel', 'role': 'server', 'profile': 'routed-cancel', 'kind': 'routed', 'ticks': rng.choice([0, 1, 3]),
+                        'result': rng.choice(['future', 'future', 'task'])})
         # two real endpoints (the pair scenario of C10): requests of 0..6 fragments cancelled at once or after a few deliveries; judged here for
         # "the CANCEL reaches the peer after the whole request, and the peer's producer is cancelled"
         for _ in range(200 if tier == 'quick' else 4000):
@@ -70,6 +74,8 @@ class C09(EngineProp):
             return detloop.run(c10.pair_scenario, case)
         if case.get('mode') == 'collector-pair':
             return detloop.run(self._collector_pair, case)
+        if case.get('mode') == 'routed-cancel':
+            return detloop.run(self._routed_cancel, case)
         if case.get('mode') == 'source':
             return detloop.run(sources.drive, case)
         if case.get('mode') == 'wire-cancel':
@@ -78,6 +84,66 @@ class C09(EngineProp):
             from harness.props import c20
             return c20.PROP.run_impl(case['c20'])
         return super().run_impl(case)
+
+    async def _routed_cancel(self, loop, case):
+        import asyncio
+        from harness import simnet
+        from rsocket.rsocket_server import RSocketServer
+        from rsocket.routing.request_router import RequestRouter
+        from rsocket.routing.routing_request_handler import RoutingRequestHandler
+        from rsocket.extensions.helpers import composite, route
+        from rsocket.extensions.mimetypes import WellKnownMimeTypes
+        from rsocket.helpers import create_future
+        from rsocket.payload import Payload
+        from rsocket import frame as F
+        router = RequestRouter()
+        pending = []
+
+        @router.response('slow')
+        async def slow(payload):
+            if case['result'] == 'task':
+                f = asyncio.ensure_future(asyncio.sleep(3600))
+            else:
+                f = asyncio.get_event_loop().create_future()
+            pending.append(f)
+            return f
+
+        @router.response('quick')
+        async def quick(payload):
+            return create_future(Payload(b'ok'))
+        t = simnet.ScriptedTransport(loop)
+        server = RSocketServer(t, handler_factory=lambda: RoutingRequestHandler(router))
+
+        def frame(cls, sid, **kw):
+            fr = cls()
+            fr.stream_id = sid
+            for k, v in kw.items():
+                setattr(fr, k, v)
+            return fr.serialize()
+        setup = F.SetupFrame()
+        setup.stream_id, setup.keep_alive_milliseconds, setup.max_lifetime_milliseconds = 0, 100000, 1000000
+        setup.metadata_encoding, setup.data_encoding = WellKnownMimeTypes.MESSAGE_RSOCKET_COMPOSITE_METADATA.value.name, b'application/octet-stream'
+        setup.flags_lease = setup.flags_resume = False
+        t.deliver(setup.serialize())
+        await loop.settle()
+        t.deliver(frame(F.RequestResponseFrame, 1, data=b'q', metadata=bytes(composite(route('slow')))))
+        for _ in range(case['ticks']):
+            await asyncio.sleep(0)
+        await loop.settle()
+        t.deliver(frame(F.CancelFrame, 1))
+        t.deliver(frame(F.RequestResponseFrame, 3, data=b'b', metadata=bytes(composite(route('quick')))))
+        await loop.settle()
+        await loop.advance(50)
+        answered = sorted({e[2].stream_id for e in t.sent if isinstance(e[2], F.PayloadFrame)})
+        res = {'handler_called': len(pending), 'handler_future': ('none' if not pending else 'cancelled' if pending[0].cancelled() else 'done' if pending[0].done() else 'pending'),
+               'answered': answered, 'errors': [e[1][:60] for e in t.sent if isinstance(e[2], F.ErrorFrame)], 'table': sorted(server._stream_control._streams.keys())}
+        for f in pending:
+            f.cancel()
+        try:
+            await server.close()
+        except Exception:
+            pass
+        return res
 
     async def _collector_pair(self, loop, case):
         import asyncio
@@ -192,23 +258,23 @@ class C09(EngineProp):
         return res
 
     def model_lines(self, case, obs):
-        if case.get('mode') in ('source', 'wire-cancel', 'rx-dispose', 'collector-pair', 'pair'):
+        if case.get('mode') in ('source', 'wire-cancel', 'rx-dispose', 'collector-pair', 'pair', 'routed-cancel'):
             return []
         return super().model_lines(case, obs)
 
     def compare(self, case, obs, answers):
-        if case.get('mode') in ('source', 'wire-cancel', 'rx-dispose', 'collector-pair', 'pair'):
+        if case.get('mode') in ('source', 'wire-cancel', 'rx-dispose', 'collector-pair', 'pair', 'routed-cancel'):
             return None
         return super().compare(case, obs, answers)
 
     def nontrivial(self, case, obs):
-        if case.get('mode') in ('source', 'wire-cancel', 'rx-dispose', 'collector-pair', 'pair'):
+        if case.get('mode') in ('source', 'wire-cancel', 'rx-dispose', 'collector-pair', 'pair', 'routed-cancel'):
             import json
             return json.dumps(case, sort_keys=True)
         return super().nontrivial(case, obs)
 
     def stats(self, case, obs):
-        if case.get('mode') in ('source', 'wire-cancel', 'rx-dispose', 'collector-pair', 'pair'):
+        if case.get('mode') in ('source', 'wire-cancel', 'rx-dispose', 'collector-pair', 'pair', 'routed-cancel'):
             yield 'mode=' + case['mode']
             yield 'kind=' + case['kind']
             return
@@ -225,7 +291,7 @@ class C09(EngineProp):
             if case['ticks']:
                 yield dict(case, ticks=case['ticks'] - 1)
             return
-        if case.get('mode') in ('rx-dispose', 'collector-pair'):
+        if case.get('mode') in ('rx-dispose', 'collector-pair', 'routed-cancel'):
             return
         if case.get('mode') == 'pair':
             pl = case['plans']
@@ -241,6 +307,14 @@ class C09(EngineProp):
         if case['mode'] == 'rx-dispose':
             from harness.props import c20
             return [f for f in c20.PROP.oracle(case['c20'], obs) if f['signature'].split(':')[0] in ('dispose-does-not-cancel', 'signals-after-dispose')]
+        if case['mode'] == 'routed-cancel':
+            if obs['handler_future'] != 'cancelled':
+                fails.append({'signature': 'producer-survives-peer-cancel:routed', 'what': 'request-response served through RoutingRequestHandler (route handler returned a pending %s): after CANCEL the handler future is %s' % (case['result'], obs['handler_future'])})
+            if 3 not in obs['answered']:
+                fails.append({'signature': 'cancel-disturbs-other-stream:routed', 'what': 'a request on another stream sent right behind the CANCEL was not answered (answered: %s, errors: %s)' % (obs['answered'], obs['errors'])})
+            if 1 in obs['table']:
+                fails.append({'signature': 'cancelled-stream-still-registered:routed', 'what': 'stream 1 still registered after CANCEL'})
+            return fails
         if case['mode'] == 'pair':
             wire = obs.get('client_wire') or []
             last_req, cancel_at = {}, {}
@@ -306,7 +380,7 @@ class C09(EngineProp):
         return fails
 
     def oracle(self, case, obs):
-        if case.get('mode') in ('source', 'wire-cancel', 'rx-dispose', 'collector-pair', 'pair'):
+        if case.get('mode') in ('source', 'wire-cancel', 'rx-dispose', 'collector-pair', 'pair', 'routed-cancel'):
             return self._source_oracle(case, obs)
         fails = []
         steps = obs['steps']
